@@ -367,6 +367,10 @@ func main() {
 	r := hx.Init("")
 	r.ID = *prop
 	r.ReloadKnown()
+	if *prop == "C15" {
+		c15Main(r)
+		return
+	}
 	var scens []hx.Scenario
 	switch *prop {
 	case "C18":
